@@ -59,9 +59,9 @@ theorem repack_total_partial (bs : Bytes) (d : Nat) (hd : budget bs ≤ d) :
 theorem print_total_partial (p : Frame) : printF Cfg.repaired p = .ok () := printF_ok p
 
 /-- **Relation to the C14 model.**  Whenever the exception-aware parser returns (any nesting budget, any version of the code
-without the TCP-option bound C15-4, which the C14 model does not have), the total parser `Packet.parse` of
+that has the TCP-option bound C15-4, which is committed and which the C14 model has too), the total parser `Packet.parse` of
 `Model/PacketHdr.lean` — which maps every would-be exception to "unparsed" — returns the same chain. -/
-theorem refines_c14 (cfg : Cfg) (hc : cfg.tcpOptBound = false) (d : Nat) (bs : Bytes) (p : Frame)
+theorem refines_c14 (cfg : Cfg) (hc : cfg.tcpOptBound = true) (d : Nat) (bs : Bytes) (p : Frame)
     (h : parseEthernet cfg d bs = .ok p) : p.toPkt = Packet.parse d .eth bs :=
   (parseD_ref cfg hc d).same .eth .eth bs p rfl h
 
@@ -132,7 +132,7 @@ example : classesOf Cfg.repaired w_tcpopts = ["ethernet", "ipv4", "tcp", "bytes"
 /-- every truncation of a valid frame still parses (here: the VLAN/IPv4/UDP frame cut inside the UDP header gives IPv4 + bytes) -/
 example : classesOf Cfg.repaired (w_udp.take 40) = ["ethernet", "vlan", "ipv4", "bytes"] := by decide
 /-- the hypothesis of `refines_c14` is satisfiable and the conclusion is not about an empty chain -/
-example : (parseEthernet Cfg.head (budget w_udp) w_udp).toOption.map (·.classes) = some ["ethernet", "vlan", "ipv4", "udp", "bytes"] := by decide
+example : (parseEthernet Cfg.repaired (budget w_udp) w_udp).toOption.map (·.classes) = some ["ethernet", "vlan", "ipv4", "udp", "bytes"] := by decide
 /-- `nesting_defect` at d = 3: 26 bytes, three tags -/
 example : parseEthernet Cfg.repaired 3 (nestFrame 3) = .error .recursion := (nesting_defect Cfg.repaired 3).1
 example : classesOf Cfg.repaired (nestFrame 3) = ["ethernet", "vlan", "vlan", "vlan", "!vlan"] := by decide
